@@ -29,9 +29,9 @@ fam(ScenarioFamily('parallel', BUS_PROPS, _rand(gen.cfg(p_par=0.6, p_idle=0.05))
 # forwarding between buses (one edge per (src,dst))
 fam(ScenarioFamily('forward', BUS_PROPS + ('C07',), _rand(gen.cfg(nb=(2, 4), p_fwd=1.0, p_idle=0.05)), 600, 6000))
 # forwarding combined with small history limits (loop prevention must not depend on what the history still holds)
-fam(ScenarioFamily('forward_history', BUS_PROPS + ('C07',), _rand(gen.cfg(nb=(2, 4), p_fwd=1.0, hist=[1, 2, 3, 5, 10], actor_ops=(3, 9), p_idle=0.03)), 400, 4000))
+fam(ScenarioFamily('forward_history', BUS_PROPS + ('C07',), _rand(gen.cfg(nb=(2, 4), p_fwd=1.0, hist=[1, 2, 3, 5, 10], actor_ops=(3, 9), p_idle=0.12)), 400, 4000))
 # small history limits
-fam(ScenarioFamily('history', BUS_PROPS, _rand(gen.cfg(hist=[1, 2, 3, 5, 10], nb=(1, 3), actor_ops=(3, 9), p_idle=0.05)), 600, 6000))
+fam(ScenarioFamily('history', BUS_PROPS, _rand(gen.cfg(hist=[1, 2, 3, 5, 10], nb=(1, 3), actor_ops=(3, 9), p_idle=0.15)), 600, 6000))
 
 
 CHECKS: dict = {}
@@ -140,9 +140,11 @@ fam(ScenarioFamily('spawn', ('C06', 'C04', 'C05', 'C02'), gen.spawn_scenario, 20
 fam(ScenarioFamily('dupfwd', BUS_PROPS + ('C07',), gen.dupfwd_scenario, 300, 3000))
 fam(ScenarioFamily('later', BUS_PROPS, gen.later_scenario, 400, 4000))
 fam(EnumFamily('error_enum', ('C11', 'C01'), gen.error_base, gen.error_derive, 12, 200, 40, 120))
+fam(EnumFamily('idle_enum', ('C15',), gen.idle_base, gen.idle_derive, 16, 250, 40, 120))
+fam(ScenarioFamily('history_deep', BUS_PROPS, gen.history_deep_scenario, 300, 4000))
 fam(EnumFamily('stop_enum', ('C16', 'C05', 'C06'), gen.stop_base, gen.stop_derive, 12, 200, 40, 150))
 fam(EnumFamily('cancel_enum', ('C16',), gen.stop_base, gen.cancel_derive, 6, 80, 30, 100))
-fam(EnumFamily('timeout_enum', ('C10', 'C08', 'C02', 'C06'), gen.timeout_base, gen.timeout_derive, 14, 250, 40, 150))
+fam(EnumFamily('timeout_enum', ('C10', 'C08', 'C02', 'C06'), gen.timeout_base, gen.timeout_derive, 24, 250, 40, 150))
 
 CHECKS['C01'].families.append('recursion')
 CHECKS['C01'].families.append('graphs')
@@ -155,6 +157,9 @@ for _p in ('C01', 'C02', 'C03', 'C04', 'C05', 'C06', 'C08', 'C09', 'C11', 'C15')
     CHECKS[_p].families.append('dupfwd')
     CHECKS[_p].families.append('later')
 CHECKS['C08'].families.append('timeout_enum')
+CHECKS['C15'].families.append('idle_enum')
+for _p in ('C01', 'C03', 'C04', 'C13', 'C15'):
+    CHECKS[_p].families.append('history_deep')
 CHECKS['C05'].families.append('stop_enum')
 CHECKS['C06'].families.append('stop_enum')
 CHECKS['C13'].families.append('forward_history')
